@@ -25,7 +25,7 @@ func init() {
 		Level: "exploration",
 		Rule: "each case = 200 calls; a call = (instant in years 1..9999 incl. boundaries and DST transitions ±1s, rendering zone, date form, time form, " +
 			"fraction digits, tz-suffix form, fromTZ/toTZ/unit arguments) through one of the four exported functions; expected value computed from the " +
-			"instant with time arithmetic. distinct = distinct (function, date form, time form, tz form, fromTZ?, toTZ?, zone, year-century) tuples; " +
+			"instant with time arithmetic. A quarter to a third of the checked calls are preceded by a call that differs in one argument (result discarded); the error side includes days a month does not have in every advertised spelling. distinct = distinct (function, date form, time form, tz form, fromTZ?, toTZ?, zone, year-century) tuples; " +
 			"non-trivial = the call returned a value that was compared (not the empty-input case).",
 		Assumptions: []string{
 			"Go's time package (Date, In, Format of numeric fields, LoadLocation) and /usr/share/zoneinfo are the trusted base for expected values",
